@@ -60,10 +60,12 @@ func (reg *Reg) TagDelete(ctx context.Context, r ref.Ref) error {
 	}
 
 	resp, err := reg.reghttp.Do(ctx, req)
+	deleted := err == nil && resp != nil && resp.HTTPResponse().StatusCode == 202
 	if resp != nil {
-		defer resp.Close()
+		// release the request before the fallback sends requests of its own
+		_ = resp.Close()
 	}
-	if err == nil && resp != nil && resp.HTTPResponse().StatusCode == 202 {
+	if deleted {
 		return nil
 	}
 	// ignore errors, fallback to creating a temporary manifest to replace the tag and deleting that manifest
